@@ -149,19 +149,9 @@ Definition eval_op (op : string) (t : ty) (raw : list sexp) (o : option obs) : v
   let zs := zero_size t in
   match o with
   | None =>
-      (* the call panicked *)
-      if String.eqb op "unionm" then
-        match map_opt parse_val raw with
-        | Some [a; b] =>
-            match a, slice_elems b with
-            | VNilS, Some (_ :: _) =>
-                (* known finding: deriveUnion on a nil first map writes into the nil map *)
-                mkv true true false true (Sym "panic") "known:union-nil-map"
-            | _, _ => mkv true false false true (Sym "no-panic") "unionm/unexpected-panic"
-            end
-        | _ => bad_line
-        end
-      else mkv true false false true (Sym "no-panic") (op ++ "/unexpected-panic")
+      (* the call panicked: none of the modelled functions can (Union on a nil first map did before
+         fix C14-fix-union-nil-map) *)
+      mkv true false false true (Sym "no-panic") (op ++ "/unexpected-panic")
   | Some ob =>
       let tops := top_labels (o_before ob) in
       if String.eqb op "contains" then
@@ -288,20 +278,21 @@ Definition eval_op (op : string) (t : ty) (raw : list sexp) (o : option obs) : v
                                   && keys_distinct k1 && keys_distinct k2)%bool in
                     let rnil := match r with VNilS => true | _ => false end in
                     if String.eqb op "unionm" then
-                      let m := union_map_m (fun ks => ks) (to_map a) (to_map b) in
+                      let m := union_map_m 0%N (fun ks => ks) (to_map a) (to_map b) in
+                      let anil := match a with VNilS => true | _ => false end in
                       mkv true
                           (match m with
                            | Ok mv => match map_keys mv with
-                                      | Some mk => set_match mk rk && same
-                                                   && Bool.eqb rnil (match mv with VNilM => true | _ => false end)
-                                                   && set_match rk k1' && set_match k2 k2'
+                                      | Some mk => set_match mk rk && negb rnil
+                                                   && (if anil then negb same && is_nil k1' else same && set_match rk k1')
+                                                   && set_match k2 k2'
                                       | None => false end
                            | _ => false end)%bool
                           (keys_distinct rk && forallb (fun x => key_in x rk) (k1 ++ k2)%list
                            && forallb (fun k => key_in k (k1 ++ k2)%list) rk && set_match k2 k2')%bool
                           guard
                           (match m with Ok mv => val_sexp mv | _ => Sym (res_tag m) end)
-                          ("unionm/" ++ bool_tag (match a with VNilS => true | _ => false end) "nil-first" "first-ok")
+                          ("unionm/" ++ bool_tag anil "nil-first" "first-extended-in-place")
                     else
                       let m := intersect_map_m 0%N (fun ks => ks) (to_map a) (to_map b) in
                       mkv true
